@@ -113,6 +113,8 @@ def reject_catalogue():
         "stochastic transition of a continuous state": dict(n_periods=2, functions=dict(utility=u_wc, next_wealth=lcm.mark.stochastic(lambda wealth: None)), choices=dict(c=C), states=dict(wealth=W)),
         "stochastic transition depending on a continuous state": dict(n_periods=2, functions=dict(utility=lambda h, wealth, c: c + h + 0 * wealth, next_h=lcm.mark.stochastic(lambda h, wealth: None), next_wealth=lambda wealth, c: wealth - c), choices=dict(c=C), states=dict(h=dg(2), wealth=W)),
         "stochastic transition depending on a continuous choice": dict(n_periods=2, functions=dict(utility=lambda h, c: c + h, next_h=lcm.mark.stochastic(lambda h, c: None)), choices=dict(c=C), states=dict(h=dg(2))),
+        "state without transition, function named like the state": dict(n_periods=2, functions=dict(utility=u_wc, wealth=lambda wealth, c: wealth - c), choices=dict(c=C), states=dict(wealth=W)),
+        "state without transition, function with a look-alike name": dict(n_periods=2, functions=dict(utility=u_wc, xnext_wealth=lambda wealth, c: wealth - c), choices=dict(c=C), states=dict(wealth=W)),
         "stochastic transition depending on an auxiliary function": dict(n_periods=2, functions=dict(utility=lambda h, d: d + h, aux=lambda h: h, next_h=lcm.mark.stochastic(lambda aux: None)), choices=dict(d=dg(2)), states=dict(h=dg(2))),
     }
 
